@@ -1500,8 +1500,13 @@ fn main() {
             (emb, o)
         } else {
             let seed = rp["case_seed"].as_u64().expect("case_seed");
-            let emb = gen_embeddings(&mut Rng::new(seed), &cfg);
-            (emb, run_random(&args, cfg, seed, true))
+            if rp["part"].as_str() == Some("mixed") {
+                let (_c, emb, o) = run_mixed(&args, cfg.bits(), seed, true);
+                (emb, o)
+            } else {
+                let emb = gen_embeddings(&mut Rng::new(seed), &cfg);
+                (emb, run_random(&args, cfg, seed, true))
+            }
         };
         let (emb, o) = o;
         for l in &o.trace {
@@ -1525,7 +1530,9 @@ fn main() {
         total.merge(rep);
     }
 
-    let meta = Meta {
+    // reduced legs (sanitizer builds) pass --floor-pct to scale the non-vacuity floors with their budget
+    let pct = args.extra_u64("floor-pct", 100);
+    let mut meta = Meta {
         property: "C01",
         rule: "one case = one schedule (<= 800 simulator events) over 3 or 5 real RaftNode objects with real WALs; distinct by the hash of the executed event sequence (event kind, node, message key) together with the config; non-trivial if at least two leaderships were observed and at least one entry was reported committed (so the commit-agreement / leader-completeness oracles had something to compare), or if it ended in a violation",
         assumptions: vec![
@@ -1562,5 +1569,10 @@ fn main() {
         },
         exhaustive: false,
     };
+    for f in meta.floors.iter_mut() {
+        if f.0 != "directed_scripts_run" {
+            f.1 = (f.1 * pct / 100).max(1);
+        }
+    }
     write_result(&args, &meta, &total, started);
 }
